@@ -16,6 +16,12 @@ from vf import env, par, sched, sqlproxy
 from vf.report import Ctx, Partial
 
 _ready = False
+FAIL_FAST = 3  # a subtree stops exploring after this many violations (only ever reached on a failing run)
+
+
+class _Stop(Exception):
+    pass
+
 
 
 def prepare() -> None:
@@ -90,13 +96,18 @@ def _subtree(args: tuple) -> Partial:
             # minimise the first new violation of this execution, tag all with scenario data
             for v in p.violations[before:]:
                 _finish_violation(scn, modname, desc, ex, v)
+            if len(p.violations) >= FAIL_FAST:
+                raise _Stop()
         if replay_every and n[0] % replay_every == 0:
             ex2 = scn.execute(list(ex.choices), None)
             if sched.prefix_hashes(ex2)[-1] != sched.prefix_hashes(ex)[-1] or scn.digest(ex2) != d:
                 raise sched.HarnessError(f"replay of {sched._trim(ex.choices)} diverged in {desc}")
             p.count("traces_validated_against_impl")
 
-    sched.explore(scn.execute, bound, on_exec, prefix=prefix, expect=expect)
+    try:
+        sched.explore(scn.execute, bound, on_exec, prefix=prefix, expect=expect)
+    except _Stop:
+        p.notes.append(f"exploration of a subtree stopped after {FAIL_FAST} violations (the run fails anyway)")
     sched.clear_points()
     return p
 
@@ -183,7 +194,7 @@ def explore_all(ctx: Ctx, modname: str, descs: list, bound_of: Any, replay_every
                     "first_points": [[p.tid, p.kind, p.info] for p in ex.trace[:8]],
                     "observed": scn.digest(ex)}, limit=4)
         ctx.extra.setdefault("bounds", {})[desc_key(desc)] = bound
-        if bound >= 1:
+        if bound >= 1 and len(ctx.violations) == before:
             for pre, exp in sched.children(ex, 0):
                 items.append((modname, desc, pre, exp, bound, replay_every))
         sched.clear_points()
